@@ -22,6 +22,7 @@ struct SolReadConfig {
   bool easy_party = false;                  // the handler is the library's own SOLHandler_Easy: NLSolver::ReadSolution() for an NLModel of the declared size
   bool c_default_party = false;             // the consumer is the library's own default C callback table (NLW2_MakeSOLHandler_C_Default) + a Header callback
   bool easy_c_party = false;                // NLW2_ReadSolution_C on an NLW2_NLSolver_C object that has read another solution (with suffixes) before
+  bool easy_history = false;                // easy party: the NLSolver object has loaded another model (mixed column classes, so permuted) before this one
   std::vector<int> easy_types;              // column classes of that model (0 continuous, 1 binary, 2 integer); empty: integer / continuous alternating
 };
 
